@@ -17,6 +17,7 @@ var (
 	flagTier   = flag.String("verif.tier", "quick", "tier")
 	flagReplay = flag.String("verif.replay", "", "replay file")
 	flagReps   = flag.Int("verif.reps", 1, "replay repetitions")
+	flagTrace  = flag.Bool("verif.trace", false, "print the boundary log of a replay")
 )
 
 // TestProp is the search entry point: one property per process.
@@ -56,6 +57,7 @@ func TestReplay(t *testing.T) {
 	known := LoadKnownFindings()
 	fails := 0
 	for i := 0; i < *flagReps; i++ {
+		ReplayTrace = *flagTrace
 		res, err := Replay(prop, &rf, known)
 		if err != nil {
 			t.Fatal(err)
